@@ -179,62 +179,66 @@ func verifC03GBuild(K int) (readers []*GsfaReader, countA, countB int) {
 }
 
 func VerifC03Gsfa() {
-	K := 1 + verifChoice("epochs", verifParam("max_epochs", 2))
+	K := verifParam("min_epochs", 1) + verifChoice("epochs", verifParam("max_epochs", 2)-verifParam("min_epochs", 1)+1)
 	readers, countA, countB := verifC03GBuild(K)
 	multi, err := NewGsfaReaderMultiepoch(readers)
 	verifAssert(err == nil, "C03.gsfa setup: NewGsfaReaderMultiepoch")
 	pks := []solana.PublicKey{verifC03GA, verifC03GB, verifC03GX}
 	owners := []byte{'A', 'B', 'X'}
 	counts := []int{countA, countB, 0}
-	qi := verifChoice("address", 3)
-	pk, owner := pks[qi], owners[qi]
 	ctx := context.Background()
-	fetcher := func(epochNum uint64, loc linkedlog.OffsetAndSizeAndSlot) (*ipldbindcode.Transaction, error) {
-		t := verifC03GByOff[loc.Offset]
-		verifAssert(t != nil, "C03.gsfa: fetcher called with a location that was never indexed")
-		verifAssert(t.epoch == epochNum, "C03.gsfa: fetcher called with the wrong epoch for a location")
-		return t.tx, nil
-	}
-	check := func(m EpochToTransactionObjects, complete bool) {
-		n := 0
-		for _, l := range m {
-			for _, tx := range l {
-				t := verifC03GByTx[tx]
-				verifAssert(t != nil, "C03.gsfa: result holds a transaction the fetcher never returned")
-				verifAssert(t.owner == owner, "C03.gsfa: listed transaction does not mention the requested address")
-				n++
+	// Request history: param "rounds" consecutive queries (independent address and API choice) on the same
+	// readers; whatever a query leaves behind must not leak another address's history into the next one.
+	for round := 0; round < verifParam("rounds", 1); round++ {
+		qi := verifChoice("address", 3)
+		pk, owner := pks[qi], owners[qi]
+		fetcher := func(epochNum uint64, loc linkedlog.OffsetAndSizeAndSlot) (*ipldbindcode.Transaction, error) {
+			t := verifC03GByOff[loc.Offset]
+			verifAssert(t != nil, "C03.gsfa: fetcher called with a location that was never indexed")
+			verifAssert(t.epoch == epochNum, "C03.gsfa: fetcher called with the wrong epoch for a location")
+			return t.tx, nil
+		}
+		check := func(m EpochToTransactionObjects, complete bool) {
+			n := 0
+			for _, l := range m {
+				for _, tx := range l {
+					t := verifC03GByTx[tx]
+					verifAssert(t != nil, "C03.gsfa: result holds a transaction the fetcher never returned")
+					verifAssert(t.owner == owner, "C03.gsfa: listed transaction does not mention the requested address")
+					n++
+				}
+			}
+			if complete {
+				verifAssert(n == counts[qi], "C03.gsfa: number of listed transactions differs from the address's history")
 			}
 		}
-		if complete {
-			verifAssert(n == counts[qi], "C03.gsfa: number of listed transactions differs from the address's history")
-		}
-	}
-	switch verifChoice("api", 4) {
-	case 0: // what handleGetSignaturesForAddress calls
-		m, err := multi.GetBeforeUntil(ctx, pk, 100, nil, nil, fetcher)
-		verifAssert(err == nil, "C03.gsfa: GetBeforeUntil failed (an epoch without the address must be skipped)")
-		check(m, true)
-	case 1:
-		m, err := multi.Get(ctx, pk, 100, fetcher)
-		if err == nil {
+		switch verifChoice("api", 4) {
+		case 0: // what handleGetSignaturesForAddress calls
+			m, err := multi.GetBeforeUntil(ctx, pk, 100, nil, nil, fetcher)
+			verifAssert(err == nil, "C03.gsfa: GetBeforeUntil failed (an epoch without the address must be skipped)")
 			check(m, true)
-		} else {
-			verifAssert(m == nil, "C03.gsfa: Get returned both an error and transactions")
-		}
-	case 3: // what the gRPC StreamTransactions account filter calls (whole slot range)
-		m, err := multi.GetBeforeUntilSlot(ctx, pk, 100, 20*432000, 0, fetcher)
-		verifAssert(err == nil, "C03.gsfa: GetBeforeUntilSlot failed (an epoch without the address must be skipped)")
-		check(m, true)
-	case 2: // single-epoch reader
-		locs, err := readers[0].GetBeforeUntil(ctx, pk, 100, nil, nil, func(loc linkedlog.OffsetAndSizeAndSlot) (solana.Signature, error) {
-			return solana.Signature{}, nil
-		})
-		if err != nil {
-			verifAssert(len(locs) == 0, "C03.gsfa: single-epoch GetBeforeUntil returned both an error and locations")
-		}
-		for _, loc := range locs {
-			t := verifC03GByOff[loc.Offset]
-			verifAssert(t != nil && t.owner == owner, "C03.gsfa: single-epoch reader lists a location of another address")
+		case 1:
+			m, err := multi.Get(ctx, pk, 100, fetcher)
+			if err == nil {
+				check(m, true)
+			} else {
+				verifAssert(m == nil, "C03.gsfa: Get returned both an error and transactions")
+			}
+		case 3: // what the gRPC StreamTransactions account filter calls (whole slot range)
+			m, err := multi.GetBeforeUntilSlot(ctx, pk, 100, 20*432000, 0, fetcher)
+			verifAssert(err == nil, "C03.gsfa: GetBeforeUntilSlot failed (an epoch without the address must be skipped)")
+			check(m, true)
+		case 2: // single-epoch reader
+			locs, err := readers[0].GetBeforeUntil(ctx, pk, 100, nil, nil, func(loc linkedlog.OffsetAndSizeAndSlot) (solana.Signature, error) {
+				return solana.Signature{}, nil
+			})
+			if err != nil {
+				verifAssert(len(locs) == 0, "C03.gsfa: single-epoch GetBeforeUntil returned both an error and locations")
+			}
+			for _, loc := range locs {
+				t := verifC03GByOff[loc.Offset]
+				verifAssert(t != nil && t.owner == owner, "C03.gsfa: single-epoch reader lists a location of another address")
+			}
 		}
 	}
 	verifReach("end")
